@@ -763,6 +763,17 @@ class Engine:
         # operation of the same update, and what was created may have
         # been deleted again. So first forget what the deletions name,
         # then register what is in the hierarchy now.
+        # A process that was moved keeps its place in the schedule: the
+        # end of the interval it is simulating, and the update it
+        # computed for it, move with it to its new path.
+        moved_progress = {}
+        for path, process in process_updates or []:
+            for old_path, old_process in self.process_paths.items():
+                if old_process is process and old_path != path \
+                        and old_path in self.front:
+                    moved_progress[path] = self.front.pop(old_path)
+                    break
+
         for deletion in deletions or []:
             self._delete_path(deletion)
 
@@ -816,6 +827,14 @@ class Engine:
                 dependencies = flow_update_dict.get(path)
                 assoc_path(self.steps, path, step)
                 self._add_step_path(step, path, dependencies)
+
+        for path, progress in moved_progress.items():
+            if path in self.process_paths:
+                if progress['update'] and progress['update'][0].args:
+                    # the update will be applied from the new path
+                    deferred = progress['update'][0]
+                    deferred.args = (path,) + tuple(deferred.args[1:])
+                self.front[path] = progress
 
         return view_expire
 
